@@ -21,7 +21,7 @@ ASSUMPTIONS = ["granularity is one Python line of conductor code; signals landin
                "interrupt window = from the entry of ExecutionPlanner.create_plan_for to the return of Executor.run_plan "
                "(before it nothing has been started; after it Conductor is only printing its result)",
                "'Exception ignored in ...' notes that CPython prints for exceptions inside __del__ are not counted as an internal error"]
-ESSENTIAL = ["inflight_at_injection", "two_inflight", "in_start_execution", "in_wait", "in_finish_execution",
+ESSENTIAL = ["inflight_at_injection", "two_inflight", "second_signal_in_terminate_processes", "in_start_execution", "in_wait", "in_finish_execution",
              "in_sigchld_handler", "during_planning", "in_launch_after_start_execution", "SIGINT", "SIGTERM"]
 TECHNIQUE = "fault injection enumeration: every executed line as an interrupt point (sys.settrace) under a virtual kernel; Hypothesis generates the scenarios"
 LEVEL_TEXT = ("Enumerates interrupt points at Python-line granularity for fixed scenarios (every line in thorough, stride in "
@@ -64,6 +64,8 @@ def _strategy(draw, tier):
                                  jobs=(None, 1, 2, 2, 3, 3), tape_max=30, flags=("again",)))
     case["sig"] = draw(st.sampled_from([int(signal.SIGINT), int(signal.SIGTERM)]))
     case["kfrac"] = draw(st.sampled_from(range(10000)))
+    # a second signal (an impatient second Ctrl-C) this many executed lines after the first
+    case["at2"] = draw(st.sampled_from([None, None] + list(range(1, 41))))
     return case
 
 
@@ -96,11 +98,20 @@ def enumerate_cases(tier, w, nworkers):
                     c["k"] = k
                     c["fixed"] = si
                     yield c
+                    # second signal: one offset per point in quick, every offset 1..40 at every 4th point in thorough
+                    if tier == "quick":
+                        offs = [1 + (k * 7 + si) % 40]
+                    else:
+                        offs = range(1, 41) if k % 4 == 0 else [1 + (k * 7 + si) % 40]
+                    for o in offs:
+                        c2 = dict(c)
+                        c2["at2"] = o
+                        yield c2
                 idx += 1
 
 
 def run_case(case):
-    base = {k: v for k, v in case.items() if k not in ("sig", "k", "kfrac", "fixed")}
+    base = {k: v for k, v in case.items() if k not in ("sig", "k", "kfrac", "fixed", "at2")}
     if "k" in case:
         k = case["k"]
     else:
@@ -108,8 +119,10 @@ def run_case(case):
         if n <= 0:
             return Outcome([], ["no_lines"], False, None)
         k = 1 + case["kfrac"] * n // 10000
-    res = graph.run_graph_case(base, inject={"mode": "abort", "at": k, "sig": case["sig"],
-                                               "only_in": WINDOW})
+    inject = {"mode": "abort", "at": k, "sig": case["sig"], "only_in": WINDOW}
+    if case.get("at2"):
+        inject["at2"] = case["at2"]
+    res = graph.run_graph_case(base, inject=inject)
     return check(base, res, k, case["sig"])
 
 
@@ -134,6 +147,13 @@ def check(case, res, k, sig):
     funcs = [f[2] for f in inj["stack"]]
     files = [f[0] for f in inj["stack"]]
     in_del = "__del__" in funcs
+    inj2 = res.get("inject2")
+    if inj2 is not None:
+        summ["second_at"] = "%s:%s %s (%s)" % (inj2["file"], inj2["line"], inj2["func"], inj2["disposition"])
+        labels.append("second_signal_" + inj2["disposition"])
+        f2 = [f[2] for f in inj2["stack"]]
+        if "terminate_processes" in f2:
+            labels.append("second_signal_in_terminate_processes")
     if "start_execution" in funcs:
         labels.append("in_start_execution")
     elif "_launch_ops_if_able" in funcs and inj["func"] in ("_launch_ops_if_able", "add_op"):
@@ -164,6 +184,8 @@ def check(case, res, k, sig):
         labels.append("exited_unreaped_at_injection")
     via_popen = "subprocess.py" in files
     suffix = ""
+    if inj2 is not None and inj2["disposition"] != "ignored":
+        suffix = "_second_signal"
     if in_del:
         suffix = "_in___del__"
     elif via_popen:
